@@ -414,7 +414,12 @@ func dumpDB(db *kv.DB, also map[string]bool) (d *Dump, failure string) {
 			}
 			d.Vals[k] = v
 		}
+		alsoSorted := make([]string, 0, len(also))
 		for k := range also {
+			alsoSorted = append(alsoSorted, k)
+		}
+		sort.Strings(alsoSorted) // engine calls must not happen in map-iteration order: the trace must replay exactly
+		for _, k := range alsoSorted {
 			if _, listed := d.Vals[k]; listed {
 				continue
 			}
